@@ -390,7 +390,28 @@ def main(run):
         run.sample({"case": c.name, "note": c.note, "input": str(c.inp)[:200],
                     "mapping": {str(a): str(b)[:100] for a, b in c.mapping.items()}, "output": str(c.out)[:200]})
 
-    failing = C03_coq.emit_and_check(run, "C21", cases, timeout=600 if quick else 2700, max_rounds=5, extra_header=C03_coq.extra_header(True), shards=16)
+    # numeric pre-check: cases whose two sides already differ on exact jets get their own files and a short timeout
+    witness = {}
+    for c in cases:
+        try:
+            w_ = search_mismatch(c.out, c.inp, c.mapping, 2, run.seed)
+        except Exception:
+            w_ = None
+        if w_:
+            witness[c.name] = w_
+    suspects = [c for c in cases if c.name in witness]
+    normal = [c for c in cases if c.name not in witness]
+    run.extra["numeric_precheck_suspects"] = [c.name for c in suspects]
+    failing = C03_coq.emit_and_check(run, "C21", normal, timeout=600 if quick else 2700, max_rounds=5,
+                                     extra_header=C03_coq.extra_header(True), shards=16)
+    for f_ in os.listdir(vlib.GEN):
+        if f_.startswith("C21s_t2_"):
+            os.remove(os.path.join(vlib.GEN, f_))
+    if suspects:
+        failing += C03_coq.emit_and_check(run, "C21s", suspects[:48], timeout=240, max_rounds=1,
+                                          extra_header=C03_coq.extra_header(True), shards=min(16, len(suspects[:48])))
+        for c in suspects[48:]:
+            failing.append((c, c.name + "_numeric", "numeric pre-check: values differ (not sent to Coq)"))
 
     # --- shape-changing mappings must be rejected; unmapped expressions are returned unchanged
     gen = C03_gen.Gen(random.Random(2), "triangle")
@@ -445,7 +466,15 @@ def main(run):
     for nm, F, key, img in [("deriv_prod", f * f * h, f, h), ("deriv_sin", ufl.sin(f) * h, f, h * w),
                             ("deriv_grad", ufl.inner(ufl.grad(f), ufl.grad(f)) * h, f, h)]:
         e = ufl.derivative(F, key, du)
-        out = replace(e, {key: img})
+        try:
+            out = replace(e, {key: img})
+        except Exception as ex:
+            run.violation({"broken": "replace raised on an expression containing an unexpanded derivative "
+                                     "(the documented behaviour is: expand derivatives first, then substitute)",
+                           "input_expr": f"derivative({F}, {key}, {du})", "input_repr": repr(e)[:3000],
+                           "mapping": {repr(key): repr(ufl.as_ufl(img))}, "exception": f"{type(ex).__name__}: {ex}",
+                           "reproduce": "ufl.replace(ufl.derivative(F, u, du), {u: image})"}, True)
+            continue
         if extract_type(out, C.CoefficientDerivative):
             out = expand_derivatives(out)
         e_exp = expand_derivatives(e)
@@ -464,7 +493,7 @@ def main(run):
         if case.name in seen:
             continue
         seen.add(case.name)
-        w_ = search_mismatch(case.out, case.inp, case.mapping, 30 if quick else 200, run.seed)
+        w_ = witness.get(case.name) or search_mismatch(case.out, case.inp, case.mapping, 30 if quick else 200, run.seed)
         rep = {"broken_obligation": lemma, "case": case.name, "note": case.note, "coq_message": msg,
                "input_expr": str(case.inp), "input_repr": repr(case.inp)[:4000],
                "mapping": {repr(a): repr(ufl.as_ufl(b))[:1500] for a, b in case.mapping.items()},
